@@ -1362,3 +1362,107 @@ Section Helpers.
       apply pres_alloc. intros c d ->. exact Hp.
   Qed.
 End Helpers.
+
+(* ------------------------------------------------------------------ *)
+(** * Checked before stored: every write route validates first *)
+Section Checked.
+  Variable ct : ctable.
+  Variable rec : call -> M val.
+
+  Lemma bind_ok' {A B} (m : M A) (k : A -> M B) s a s1 : m s = (Ok a, s1) -> bind m k s = k a s1.
+  Proof. unfold bind. now intros ->. Qed.
+  Lemma bind_err' {A B} (m : M A) (k : A -> M B) s e s1 : m s = (Err e, s1) -> bind m k s = (Err e, s1).
+  Proof. unfold bind. now intros ->. Qed.
+
+  Lemma read_inst_eq s l c d :
+    nth_error (heap s) l = Some (OInst c d) -> read_inst l s = (Ok (c, d), s).
+  Proof. intro H. unfold read_inst, read, bind. rewrite H. reflexivity. Qed.
+
+  (* mutate_attr with type_check=true on a managed attribute: a value that
+     does not conform is rejected before anything is written *)
+  Theorem mutate_attr_rejects s l a v inplace force skip c d k sp :
+    nth_error (heap s) l = Some (OInst c d) -> lookup_cls ct c = Some k ->
+    lookup_attr k a = Some sp -> is_sentinel v = false ->
+    check_type FUEL ct (heap s) v (a_ty sp) = false ->
+    exists e, mutate_attr ct rec l a v inplace true force skip s = (Err e, s)
+              /\ (e = TypeErr \/ e = FrozenErr).
+  Proof.
+    intros N Hk Ha Hs C. unfold mutate_attr. rewrite Hs.
+    erewrite bind_ok'; [|apply read_inst_eq; eauto]. cbn [fst snd].
+    erewrite bind_ok'; [|unfold cls_of; rewrite Hk; reflexivity].
+    destruct (negb (force || initializing d) && inplace && c_frozen k).
+    - exists FrozenErr. split; auto.
+    - exists TypeErr. split; auto.
+      erewrite bind_ok'; [|reflexivity]. rewrite Ha.
+      erewrite bind_err'; [reflexivity|].
+      unfold check_typeM, get_heap, bind. simpl. rewrite C. reflexivity.
+  Qed.
+
+  Theorem mutate_attr_checked s l a v inplace force skip c d k sp r s' :
+    nth_error (heap s) l = Some (OInst c d) -> lookup_cls ct c = Some k ->
+    lookup_attr k a = Some sp -> is_sentinel v = false ->
+    mutate_attr ct rec l a v inplace true force skip s = (Ok r, s') ->
+    check_type FUEL ct (heap s) v (a_ty sp) = true.
+  Proof.
+    intros N Hk Ha Hs E. destruct (check_type FUEL ct (heap s) v (a_ty sp)) eqn:C; auto.
+    destruct (mutate_attr_rejects s l a v inplace force skip c d k sp N Hk Ha Hs C) as [e [E' _]].
+    rewrite E' in E. discriminate.
+  Qed.
+
+  Lemma check_typeM_eq s v t : check_typeM ct v t s = (Ok (check_type FUEL ct (heap s) v t), s).
+  Proof. reflexivity. Qed.
+
+  (* the three inserters: an item (a key) that does not conform is refused
+     with ValueError and the state is untouched, for every addressing mode *)
+  Theorem seq_inserter_rejects s sp coll index item ins :
+    check_type FUEL ct (heap s) item (item_type (a_ty sp)) = false ->
+    seq_inserter ct sp coll index item ins s = (Err ValueErr, s).
+  Proof.
+    intro C. unfold seq_inserter. erewrite bind_ok'; [|apply check_typeM_eq]. rewrite C. reflexivity.
+  Qed.
+
+  Theorem set_inserter_rejects s sp coll index item :
+    check_type FUEL ct (heap s) item (item_type (a_ty sp)) = false ->
+    set_inserter ct sp coll index item s = (Err ValueErr, s).
+  Proof.
+    intro C. unfold set_inserter. erewrite bind_ok'; [|apply check_typeM_eq]. rewrite C. reflexivity.
+  Qed.
+
+  Theorem map_inserter_rejects s sp coll key item :
+    check_type FUEL ct (heap s) key (key_type (a_ty sp)) = false \/
+    check_type FUEL ct (heap s) item (item_type (a_ty sp)) = false ->
+    map_inserter ct sp coll key item s = (Err ValueErr, s).
+  Proof.
+    intro C. unfold map_inserter. erewrite bind_ok'; [|apply check_typeM_eq].
+    destruct (check_type FUEL ct (heap s) key (key_type (a_ty sp))) eqn:Ck; [|reflexivity].
+    destruct C as [C|C]; [discriminate|]. simpl.
+    erewrite bind_ok'; [|apply check_typeM_eq]. rewrite C. reflexivity.
+  Qed.
+
+  Theorem seq_inserter_checked s sp coll index item ins u s' :
+    seq_inserter ct sp coll index item ins s = (Ok u, s') ->
+    check_type FUEL ct (heap s) item (item_type (a_ty sp)) = true.
+  Proof.
+    intro E. destruct (check_type FUEL ct (heap s) item (item_type (a_ty sp))) eqn:C; auto.
+    rewrite seq_inserter_rejects in E by exact C. discriminate.
+  Qed.
+
+  Theorem set_inserter_checked s sp coll index item u s' :
+    set_inserter ct sp coll index item s = (Ok u, s') ->
+    check_type FUEL ct (heap s) item (item_type (a_ty sp)) = true.
+  Proof.
+    intro E. destruct (check_type FUEL ct (heap s) item (item_type (a_ty sp))) eqn:C; auto.
+    rewrite set_inserter_rejects in E by exact C. discriminate.
+  Qed.
+
+  Theorem map_inserter_checked s sp coll key item u s' :
+    map_inserter ct sp coll key item s = (Ok u, s') ->
+    check_type FUEL ct (heap s) key (key_type (a_ty sp)) = true /\
+    check_type FUEL ct (heap s) item (item_type (a_ty sp)) = true.
+  Proof.
+    intro E.
+    destruct (check_type FUEL ct (heap s) key (key_type (a_ty sp))) eqn:Ck;
+      [destruct (check_type FUEL ct (heap s) item (item_type (a_ty sp))) eqn:Ci; auto|];
+      rewrite map_inserter_rejects in E by auto; discriminate.
+  Qed.
+End Checked.
